@@ -29,8 +29,8 @@ ASSUMPTIONS = [
     "lines whose fragments the sampler cannot instantiate are skipped and counted (skipped_unsampled)",
 ]
 EXHAUSTIVE = {"quick": True, "thorough": True}
-FLOORS = {"quick": {"A_matches": 5000, "A_reverse": 2000, "B_rules": 150, "B_ignore_rules": 100, "C_lines": 1500, "C_rows": 10000},
-          "thorough": {"A_matches": 5000, "A_reverse": 2000, "B_rules": 150, "B_ignore_rules": 100, "C_lines": 1500, "C_rows": 10000}}
+FLOORS = {"quick": {"A_matches": 5000, "A_reverse": 2000, "B_rules": 150, "B_ignore_rules": 100, "B_ignore_case_rules": 100, "C_lines": 1500, "C_rows": 10000},
+          "thorough": {"A_matches": 5000, "A_reverse": 2000, "B_rules": 150, "B_ignore_rules": 100, "B_ignore_case_rules": 100, "C_lines": 1500, "C_rows": 10000}}
 PREFIXES = ["undo", "no", "delete", "remove", "-"]
 VENDOR_BY_PREFIX = {"undo": "huawei", "no": "cisco", "delete": "juniper", "remove": "routeros", "-": "pc"}
 TOKS = ["a", "b", "*", "*/[ab]+/"]
@@ -270,6 +270,23 @@ def run_B(spec, acc):
                     if got != e:
                         acc.violation("C07/B/acl-ignore-rule-%s-recogniser" % which, "an ignore rule of a filter ACL does not recognise the rows its pattern (or its negated form) means",
                                       {"pattern": "!" + q, "row": r, "vendor": vendor, "expected_key": e, "got_key": got})
+        # the same rows once more with %ignore_case (compiled AFTER their case-sensitive twins in this process): the flag belongs
+        # to the rule, not to the row text
+        ic = compile_patching_text("\n".join(q + "  %ignore_case" for q in ipats), vendor)["local"]
+        for q in ipats:
+            rule = ic.get(q + "  %ignore_case") or ic.get(q) or ic.get(" ".join(q.split()))
+            plain_rule = comp["patching"].get(q) or comp["patching"].get(" ".join(q.split()))
+            if rule is None or plain_rule is None:
+                continue
+            acc.count("B_ignore_case_rules")
+            for r in probe_rows[:60]:
+                for r2 in (r, r.upper()):
+                    for which, rx, e in (("ignore_case", rule["attrs"]["regexp"], R.match("(?i)" + q, r2)), ("plain", plain_rule["attrs"]["regexp"], R.match(q, r2))):
+                        m = rx.match(r2)
+                        got = None if m is None else tuple(m.groups())
+                        if got != e:
+                            acc.violation("C07/B/ignore_case-flag-%s-rule" % which, "a row compiled with and without %ignore_case in one process: the flag of one leaks into the other",
+                                          {"pattern": q, "row": r2, "vendor": vendor, "expected_key": e, "got_key": got})
     acc.sample({"shared_text_lines": pats[:8], "probe_rows": probe_rows[:8]})
     run_B_nested(acc)
 
